@@ -77,6 +77,10 @@ pub struct EntSpec {
     pub hdrs: Vec<(String, Vec<u8>)>,
     pub plan: ChunkPlan,
     pub fault: Option<Fault>,
+    /// every metadata callback (len / etag / last_modified / add_headers) first waits until the
+    /// wall clock has crossed into the next second: exposes code that reads the clock twice around
+    /// a callback. Workload shaping only - no verdict depends on time.
+    pub slow_calls: bool,
 }
 
 impl EntSpec {
@@ -102,6 +106,7 @@ impl EntSpec {
             "chunk_sizes": sizes,
             "pend_mask": self.plan.pend_mask,
             "pend_period": self.plan.pend_period,
+            "slow_calls": self.slow_calls,
             "fault": self.fault.as_ref().map(|f| json!({
                 "call": f.call, "at": u64_to_json(f.at),
                 "kind": match f.kind { FaultKind::EarlyEnd => "early_end", FaultKind::Err => "err",
@@ -161,6 +166,7 @@ impl EntSpec {
                 pend_period: v["pend_period"].as_u64().unwrap_or(0) as u8,
             },
             fault,
+            slow_calls: v["slow_calls"].as_bool().unwrap_or(false),
         }
     }
 }
@@ -301,11 +307,25 @@ impl Stream for RangeStream {
     }
 }
 
+fn wait_for_next_second() {
+    let start = SystemTime::now().duration_since(UNIX_EPOCH).map(|d| d.as_secs()).unwrap_or(0);
+    for _ in 0..3000 {
+        let now = SystemTime::now().duration_since(UNIX_EPOCH).map(|d| d.as_secs()).unwrap_or(0);
+        if now != start {
+            return;
+        }
+        std::thread::sleep(Duration::from_millis(1));
+    }
+}
+
 impl http_serve::Entity for MonEntity {
     type Error = BoxError;
     type Data = Bytes;
 
     fn len(&self) -> u64 {
+        if self.spec.slow_calls {
+            wait_for_next_second();
+        }
         self.spec.len
     }
 
@@ -340,6 +360,9 @@ impl http_serve::Entity for MonEntity {
     }
 
     fn add_headers(&self, h: &mut HeaderMap) {
+        if self.spec.slow_calls {
+            wait_for_next_second();
+        }
         self.rec.lock().unwrap().add_headers += 1;
         for (k, v) in &self.spec.hdrs {
             if let (Ok(k), Ok(v)) = (
@@ -352,6 +375,9 @@ impl http_serve::Entity for MonEntity {
     }
 
     fn etag(&self) -> Option<HeaderValue> {
+        if self.spec.slow_calls {
+            wait_for_next_second();
+        }
         self.spec
             .etag
             .as_ref()
@@ -359,6 +385,9 @@ impl http_serve::Entity for MonEntity {
     }
 
     fn last_modified(&self) -> Option<SystemTime> {
+        if self.spec.slow_calls {
+            wait_for_next_second();
+        }
         self.spec.mtime_systime()
     }
 }
